@@ -5,9 +5,7 @@ EXTENDS FdlSelect, Json, IOUtils
 Traces == JsonDeserialize(IOEnv.TRACE_FILE)
 VARIABLE i
 
-MsMatches(obs, f) ==
-  /\ {obs[n][1] : n \in 1..Len(obs)} = DOMAIN f
-  /\ \A n \in 1..Len(obs) : f[obs[n][1]] = obs[n][2]
+MsMatches(obs, f) == obs = f        \* both are ascending sequences of <<value, count>>
 
 Failed(t) ==
   LET r == ApplySelOp(t.heap, 1, t.op) IN
